@@ -8,7 +8,8 @@ CLAIM = dict(
     text='Krylov.tla models the success/budget protocol shared by solve_cg, solve_bicg (itol 1 and 2), solve_bicgstab and solve_qmr (Start, AcceptInitial, Iterate, HalfStepExit, Breakdown, ReturnOk, Exhaust) with the residual classes and breakdowns chosen by the environment. '
          'TLC checks exhaustively for the four kinds, budgets 0..3 (quick) / 0..5 (thorough) and every environment: OkMeansPassed (Ok(k) only when the residual test passed at iteration k, k <= budget), BudgetZeroUntouched, the variant (strictly decreasing measure, it grows by at most one per step), termination under weak fairness, and PrefixClosed (the run with any smaller budget fed the same environment is a prefix: Err after j iterations for j < k, the identical Ok(k) for j >= k). '
          'Against the real code TLC validates every recorded call: systems of order 1..60 (SPD, strictly dominant nonsymmetric, symmetric indefinite, general nonsymmetric, ill-conditioned up to 1e12 incl. Hilbert, exactly singular, zero right-hand side; every pattern and triplet order), guesses zero/random/exact, tolerances 1e-12..1e-2, budgets {0,1,2,n,2n,1000}, plus all TLC-enumerated 2x2 integer SPD systems with budgets 0..3. '
-         'Guards (in Trace_Krylov.tla): Ok(k) => k <= budget, x finite, res_units <= 1; budget 0 => x bit-identical; the re-runs with budgets 1..k are Err for j < k and Ok(k) with the same x for j = k.',
+         'plus structured small-integer systems on which the recurrences break down EXACTLY (triangular, block triangular, rows/columns holding only the diagonal, diag(+1,-1,..), skew, permutations, nilpotent shifts, singular blocks; right-hand sides e_k for every k, e_i+e_j, ones, A e_k; all solvers, budgets >= 2), and sequences on ONE Sparse object (products/solves, then insert overwriting an existing diagonal/off-diagonal entry, insert of a new entry, scale, transpose(), each followed by a solve with every solver, judged against the independently tracked CURRENT dense matrix). '
+         'Guards (in Trace_Krylov.tla): Ok(k) => k <= budget, x finite, res_units <= 1 (QMR: calibrated 100, on the structured family 2000, because the residual-gap theorem does not cover its coupled recurrences); budget 0 => x bit-identical; the re-runs with budgets 1..k are Err for j < k and Ok(k) with the same x for j = k.',
     note='Decided exactly by TLC: the protocol properties on the model. Resting on harness measurements: the true residual ||b - A x||_2 (double-double, from a dense copy assembled from the triplets, not from the Sparse object), '
          'the drift unit 8*(p+10)*max(k,1)*eps*(||A||_F*max_j||x_j|| + ||b||)/||b|| with max_j over the iterates obtained hook-free by re-running with budgets 1..k, bit patterns / a 64-bit FNV fingerprint of x. '
          'For a zero right-hand side the solvers divide by 1 instead of ||b||; the same convention is used for the true relative residual. Nothing is demanded of Err results or of iterates.',
@@ -35,6 +36,6 @@ def check(ctx):
     ctx.notes.append('events per op: TLC cases %s; generated %s; generated calls answering Ok: %d' % (json.dumps(cnt1), json.dumps(cnt2), nok))
     ctx.assumptions.append('zero right-hand side: relative residual taken with denominator 1 (the convention of all four solvers)')
     return ctx.finish(
-        rule='cases: (i) every TLC-enumerated 2x2 system x solver x budget 0..3, (ii) seeded systems: 9 families x 5 solver variants x orders 1..60 (each order comes round for each family/solver pair in thorough) x budgets {0,1,2,n,2n,1000} x tolerances 1e-12..1e-2 x guesses zero/random/exact x right-hand sides zero/random/A*x; '
+        rule='cases: (i) every TLC-enumerated 2x2 system x solver x budget 0..3, (ii) seeded systems: 9 families x 5 solver variants (plus (iii) 14 structured shapes x orders 2..5 and one of 6..10 x every e_k/e_i+e_j/ones/A e_k x 5 solver variants, (iv) sequences of 2 in-place mutations on one Sparse object with all solvers after each) x orders 1..60 (each order comes round for each family/solver pair in thorough) x budgets {0,1,2,n,2n,1000} x tolerances 1e-12..1e-2 x guesses zero/random/exact x right-hand sides zero/random/A*x; '
              'one "solve" event per call plus one "prefix" event (k re-runs) per successful call with k >= 1. Non-trivial = the call answered Ok (the implication has a true antecedent) or a prefix event; distinct = distinct event contents.',
         trusted=['harness measurement of the true residual and drift unit (harness/src/suites/krylov.rs, dd.rs)', 'TLC', 'Krylov.tla protocol as the reference'])
